@@ -32,6 +32,7 @@ import (
 	"github.com/anacrolix/dht/v2/bep44"
 	"github.com/anacrolix/dht/v2/exts/getput"
 	"github.com/anacrolix/dht/v2/krpc"
+	"github.com/anacrolix/torrent/iplist"
 )
 
 func init() { commands["C14"] = runC14 }
@@ -671,6 +672,116 @@ func (r *Run) c14QueryScenario(acct *c14Acct, sp qSpec, reps int, seenTrace map[
 
 // The violation list is capped; once it is full more scenarios add nothing and a broken
 // implementation makes each of them wait for its deadlines.
+// A node that has been up for long: between two queries to one address, the older still outstanding, it has
+// issued more queries than there are two-byte (and, thorough tier, more than there are few-byte) transaction
+// IDs. Every one of them returns in one of the three ways, and the two to the same address are told apart.
+func (r *Run) c14LongUptime(acct *c14Acct) {
+	if r.c14Full() {
+		return
+	}
+	conn := c14NewConn(r)
+	cfg := c14Config(conn, 10*time.Minute)
+	s, err := dht.NewServer(cfg)
+	if err != nil {
+		r.violation("NewServer: "+err.Error(), nil)
+		return
+	}
+	blocked := net.IP{198, 51, 100, 7}
+	s.SetIPBlockList(iplist.New([]iplist.Range{{First: blocked, Last: blocked, Description: "c14"}}))
+	x := &net.UDPAddr{IP: net.IP{192, 0, 2, 9}, Port: 6881}
+	var rid [20]byte
+	r.rng.Read(rid[:])
+	type ret struct {
+		res dht.QueryResult
+		pan interface{}
+	}
+	ask := func(ctx context.Context, a *net.UDPAddr) chan ret {
+		ch := make(chan ret, 1)
+		go func() {
+			var o ret
+			defer func() { o.pan = recover(); ch <- o }()
+			o.res = s.Query(ctx, dht.NewAddr(a), "ping", dht.QueryInput{NumTries: 1})
+		}()
+		return ch
+	}
+	rep := map[string]interface{}{"queries-between": 0}
+	ctx1, cancel1 := context.WithCancel(context.Background())
+	defer cancel1()
+	first := ask(ctx1, x)
+	if !waitFor(func() bool { return conn.numWrites() >= 1 }, 5*time.Second) {
+		r.violation("query: nothing was sent", rep)
+		s.Close()
+		return
+	}
+	between := 65535
+	if r.thorough() {
+		between = 3*65536 - 1
+	}
+	rep["queries-between"] = between
+	bad := 0
+	for i := 0; i < between && bad == 0; i++ {
+		var o ret
+		func() {
+			defer func() { o.pan = recover() }()
+			o.res = s.Query(context.Background(), dht.NewAddr(&net.UDPAddr{IP: blocked, Port: 1 + i%60000}), "ping", dht.QueryInput{NumTries: 1})
+		}()
+		if o.pan != nil || o.res.Err == nil {
+			bad++
+			r.violation(fmt.Sprintf("query to a blocklisted address did not return an error (panic=%v)", o.pan), rep)
+		}
+		if i%4096 == 0 {
+			progress.Add(1)
+		}
+	}
+	second := ask(context.Background(), x)
+	ok := waitFor(func() bool { return conn.numWrites() >= 2 }, 5*time.Second)
+	var o2 ret
+	select {
+	case o2 = <-second:
+		r.violation(fmt.Sprintf("second query to an address with an older query outstanding, %d queries later, ended at once: panic=%v err=%v", between, o2.pan, o2.res.Err), rep)
+	default:
+		if !ok {
+			r.violation(fmt.Sprintf("second query to an address with an older query outstanding, %d queries later, was not sent and did not return", between), rep)
+		} else {
+			// answer the second one only: it completes, the first stays pending until its context ends
+			ws := conn.writes()
+			if b, _, _, k := c14ReplyFor(ws[len(ws)-1].B, rid); k {
+				conn.inject(b, x)
+			}
+			select {
+			case o2 = <-second:
+				if o2.pan != nil || o2.res.Err != nil {
+					r.violation(fmt.Sprintf("answered query did not return its reply: panic=%v err=%v", o2.pan, o2.res.Err), rep)
+				}
+			case <-time.After(5 * time.Second):
+				r.violation("answered query did not return", rep)
+			}
+			select {
+			case o1 := <-first:
+				r.violation(fmt.Sprintf("a reply to a later query ended the older query to the same address: panic=%v err=%v", o1.pan, o1.res.Err), rep)
+			default:
+			}
+		}
+	}
+	cancel1()
+	select {
+	case o1 := <-first:
+		if o1.pan != nil || !errors.Is(o1.res.Err, context.Canceled) {
+			r.violation(fmt.Sprintf("cancelled query did not return its context's error: panic=%v err=%v", o1.pan, o1.res.Err), rep)
+		}
+	case <-time.After(5 * time.Second):
+		r.violation("cancelled query did not return", rep)
+	}
+	if msg := c14Call("Close", func() { s.Close() }); msg != "" {
+		r.violation("long uptime: "+msg, rep)
+	}
+	if extra, dump := acct.settle(); extra > 0 {
+		r.violation(fmt.Sprintf("long uptime: %d goroutine(s) of the module left behind", extra), map[string]interface{}{"goroutines": c14Dedup(dump)})
+	}
+	r.hist("query/long-uptime")
+	r.count(fmt.Sprintf("long-uptime %d", between), true)
+}
+
 func (r *Run) c14Full() bool {
 	r.mu.Lock()
 	defer r.mu.Unlock()
@@ -1311,6 +1422,7 @@ func runC14(r *Run) {
 			r.sample(map[string]interface{}{"scenario": sp.String()})
 		}
 	}
+	r.c14LongUptime(acct)
 	tq := time.Since(t0)
 	r.note(fmt.Sprintf("query scenarios: %d systematic x %d repeats, distinct histories validated by the model: %d", len(specs), reps, r.Result.TracesValidated))
 
